@@ -460,3 +460,72 @@ func terminationOf(i *value.VmInterrupt) bool {
     loop 6 invariant @polled ghost(sincePoll) == entry(ghost(sincePoll))
     loop 6 decreases len(self.tryStates)
 @*/
+
+// ---------------------------------------------------------------------------
+// C16: host invocations (sequential part: lock discipline of the scheduler
+// bookkeeping, argument order, result extraction)
+
+/*@ func (self *VM) Wait
+    serves C16, C02
+    requires self.CancelFunc != nil && *self.CancelFunc != nil
+    requires rlocks(&self.Cores.Lock) == 0 && !wlocked(&self.Cores.Lock)
+    ensures @locks-released rlocks(&self.Cores.Lock) == 0 && !wlocked(&self.Cores.Lock)
+    ensures @no-cores-left len(self.Cores.Cores) == 0
+    loop 1 invariant @idle-unlocked rlocks(&self.Cores.Lock) == 0 && !wlocked(&self.Cores.Lock) && self.CancelFunc != nil && *self.CancelFunc != nil
+    loop 2 invariant @scan-read-locked rlocks(&self.Cores.Lock) == 1 && !wlocked(&self.Cores.Lock) && self.CancelFunc != nil && *self.CancelFunc != nil
+    loop 3 invariant @scan-read-locked rlocks(&self.Cores.Lock) == 1 && !wlocked(&self.Cores.Lock) && self.CancelFunc != nil && *self.CancelFunc != nil
+@*/
+
+/*@ func (self *VM) spawnCore
+    serves C16
+    trusted
+    requires rlocks(&self.Cores.Lock) == 0 && !wlocked(&self.Cores.Lock)
+    ensures @locks-released rlocks(&self.Cores.Lock) == 0 && !wlocked(&self.Cores.Lock)
+    ensures @registered len(self.Cores.Cores) == old(len(self.Cores.Cores))+1 && self.coreCnt == old(self.coreCnt)+1
+    ensures @fresh-core result != nil && len(result.Stack) == 0 && result.Corenum == old(self.coreCnt)
+@*/
+
+/*@ func (self *VM) spawnCoreInternal
+    serves C16
+    assume-safety
+    requires rlocks(&self.Cores.Lock) == 0 && !wlocked(&self.Cores.Lock)
+    ensures @locks-released rlocks(&self.Cores.Lock) == 0 && !wlocked(&self.Cores.Lock)
+    ensures @arguments-on-stack result != nil && len(result.Stack) == len(addToStack) && forall j in 0..len(addToStack) :: result.Stack[j] != nil && *result.Stack[j] == addToStack[j]
+    loop 1 invariant core != nil && len(core.Stack) == rangeindex() && forall j in 0..rangeindex() :: core.Stack[j] != nil && *core.Stack[j] == addToStack[j]
+    loop 1 invariant rlocks(&self.Cores.Lock) == 0 && !wlocked(&self.Cores.Lock)
+@*/
+
+/*@ func (self *VM) SpawnSync
+    serves C16
+    assume-safety
+    assumepre DeepCast, Wait, HandleTermination
+    requires rlocks(&self.Cores.Lock) == 0 && !wlocked(&self.Cores.Lock)
+    assert @declared-order before coreHandle := self.spawnCoreInternal( :: len(invertedArgs) == len(invocation.Args) && forall k in 0..len(invocation.Args) :: invertedArgs[k] == invocation.Args[len(invocation.Args)-1-k]
+    loop 2 invariant len(invertedArgs) == argCIdx+1 && argCIdx == len(invocation.Args)-1 && idx >= -1 && idx <= argCIdx && fresh(invertedArgs)
+    loop 2 invariant forall k in 0..argCIdx-idx :: invertedArgs[k] == invocation.Args[argCIdx-k]
+    loop 2 invariant rlocks(&self.Cores.Lock) == 0 && !wlocked(&self.Cores.Lock)
+    loop 1 invariant rlocks(&self.Cores.Lock) == 0 && !wlocked(&self.Cores.Lock)
+@*/
+
+/*@ func (self *VM) SpawnAsync
+    serves C16
+    assume-safety
+    assumepre DeepCast
+    requires rlocks(&self.Cores.Lock) == 0 && !wlocked(&self.Cores.Lock)
+    assert @declared-order before return self.spawnCoreInternal( :: len(invertedArgs) == len(invocation.Args) && forall k in 0..len(invocation.Args) :: invertedArgs[k] == invocation.Args[len(invocation.Args)-1-k]
+    loop 2 invariant len(invertedArgs) == argCIdx+1 && argCIdx == len(invocation.Args)-1 && idx >= -1 && idx <= argCIdx && fresh(invertedArgs)
+    loop 2 invariant forall k in 0..argCIdx-idx :: invertedArgs[k] == invocation.Args[argCIdx-k]
+    loop 2 invariant rlocks(&self.Cores.Lock) == 0 && !wlocked(&self.Cores.Lock)
+    loop 1 invariant rlocks(&self.Cores.Lock) == 0 && !wlocked(&self.Cores.Lock)
+@*/
+
+/*@ func (self *VM) HandleTermination
+    serves C16, C02
+    assumepre DeepCast
+    assume-unreachable Foreign function invocation
+    requires invocation.FunctionSignature.ReturnType != nil
+    requires interrupt == nil && invocation.FunctionSignature.ReturnType.Kind() != ast.NullTypeKind && invocation.FunctionSignature.ReturnType.Kind() != ast.NeverTypeKind && invocation.FunctionSignature.ReturnType.Kind() != ast.UnknownTypeKind && invocation.FunctionSignature.ReturnType.Kind() != ast.AnyObjectTypeKind ==> exitCore != nil && len(exitCore.Stack) > 0 && exitCore.Stack[len(exitCore.Stack)-1] != nil
+    ensures @failure interrupt != nil ==> result.Exception != nil && result.Exception.Interrupt == *interrupt && result.Exception.CoreNum == exceptionCore && result.ReturnValue == nil
+    ensures @success interrupt == nil ==> result.Exception == nil
+    ensures @typed-result interrupt == nil && result.ReturnValue != nil ==> value.VConforms(result.ReturnValue, invocation.FunctionSignature.ReturnType)
+@*/
